@@ -103,7 +103,7 @@ def check_flush(A, rep, func, cls, force):
         rep.fail("C07.a", norm_key("C07.a", func.qualname, "check-not-under-modified"),
                  f"{func.qualname}: the metadata check also runs for entries that were only read (a read-only buffered file could raise)", g.witness(w), label)
     # (f') a retained entry's metadata baseline may only be refreshed after this process's own successful write
-    mdw = [n for n in lv if n.kind == "cs_write" and n["name"] == "_buffer" and n["op"] == "setitem" and n["index"] == Val("const", "metadata") and n.func == func.qualname]
+    mdw = [n for n in lv if n.kind == "cs_write" and n["name"] == "_buffer" and n["op"] == "setitem" and n["index"] == Val("const", "metadata") and own(n)]
     done = [n.id for n in lv if is_leave(n, "_save_to_resource")]
     for n in mdw:
         w = g.must_pass(g.entry, [n.id], done)
@@ -114,7 +114,7 @@ def check_flush(A, rep, func, cls, force):
                      f"{func.qualname}: `{n.stmt}` re-reads the file metadata into the buffered entry although this flush did not write the file (entry unmodified, or a conflict was detected): a change made by someone else becomes the new baseline and is silently overwritten by the next flush",
                      g.witness(w), label)
     # (b) cleanup on all exits
-    found = [n for n in lv if modified_guard(n) and not metadata_guard(n) and n.func == func.qualname]
+    found = [n for n in lv if modified_guard(n) and not metadata_guard(n) and own(n)]
     dels = [n.id for n in lv if n.kind == "cs_write" and n["name"] == "_buffer" and n["op"] == "delitem"]
     cleared = [n.id for n in lv if n.kind == "cs_write" and n["name"] == "_buffer" and n["op"] == "setitem" and n["index"] is not None and n["index"] == Val("const", "modified")]
     clean = dels + (cleared if force else [])
